@@ -8,6 +8,7 @@ package main
 
 import (
 	"bytes"
+	crand "crypto/rand"
 	"fmt"
 	"math/big"
 	"strings"
@@ -461,6 +462,37 @@ func main() {
 	})
 	R.Sample("dsm", map[string]any{"u1": "-u2*7", "u2": "lambda", "P": "7G (Z=5)", "model": "identity"})
 	R.Expect("lists/all of length 0..3", "dsm/u1*G = -u2*P (sum is the identity)", "dsm/u1*G = u2*P (final addition is a doubling)", "mismatched length pairs")
+	// the sums are functions of the lists alone: with the process-wide default entropy source (crypto/rand.Reader) stuck
+	// at a constant, or FAILING, every entry point still returns the exact combination (with a failing source it may
+	// refuse by panicking - it has no error result - but never return anything else). Sequential: the reader is global.
+	{
+		saved := crand.Reader
+		n := 0
+		for _, src := range []mc.Script{{Src: "zero", Mode: "full", FailAfter: -1}, {Src: "ff", Mode: "full", FailAfter: -1}, {Src: "counter", Mode: "full", FailAfter: 0}, {Src: "counter", Mode: "full", FailAfter: 7}} {
+			for _, vt := range []bool{false, true} {
+				for _, ents := range [][][2]int{{{4, 3}}, {{6, 4}}, {{4, 3}, {2, 1}}, {{6, 4}, {3, 3}, {1, 5}}} {
+					crand.Reader = src.New()
+					m := mc.Safe(func() string { return runMSM(vt, ents, false, -1) })
+					n++
+					R.T(1)
+					if m != "" && !(src.FailAfter >= 0 && strings.HasPrefix(m, "panic")) {
+						R.Fail("msm/default entropy source stuck or failing", "misc", map[string]any{"crypto_rand_reader": src.String(), "vartime": vt, "entries": fmt.Sprint(ents), "what": m}, nil)
+					}
+				}
+				crand.Reader = src.New()
+				m := mc.Safe(func() string {
+					return runDSM(big.NewInt(5), big.NewInt(0x7777), ref.G().Mul(big.NewInt(7)), big.NewInt(2), false)
+				})
+				n++
+				R.T(1)
+				if m != "" && !(src.FailAfter >= 0 && strings.HasPrefix(m, "panic")) {
+					R.Fail("dsm/default entropy source stuck or failing", "misc", map[string]any{"crypto_rand_reader": src.String(), "what": m}, nil)
+				}
+			}
+		}
+		crand.Reader = saved
+		R.Class("combinations with crypto/rand.Reader stuck at a constant or failing", int64(n))
+	}
 	// cold start: every entry point as the first library operation of a fresh process
 	for _, vt := range []bool{false, true} {
 		R.Cold("msm/long list", "long", mc.D{"vartime": vt, "n": 7, "recv": -1})
